@@ -190,7 +190,7 @@ def drive(prop, tier, seed, only, scratch, t_start):
                 extra_pre.append('not (%s)' % k['carve_out'])
         c['_extra_pre'] = extra_pre
         spec = dict(module=c['module'], fn=c['fn'], fixed=c.get('fixed') or {}, extra_pre=extra_pre,
-                    post='_', timeout=c.get('timeout', 60), scratch=scratch,
+                    post='_', timeout=c.get('timeout', 60), scratch=scratch, prop=prop,
                     per_path_timeout=c.get('per_path_timeout'))
         jobs.append(('main', c, spec))
         if c.get('reach', True):
